@@ -167,6 +167,17 @@ def stepC14 (s : S14) (op : String) (got : String) : StepResult S14 :=
       spec := crashSpec "PrefixHash" got ++
         (if !isCrash got && parts.getD 0 "x" != parts.getD 1 "y" then
           [⟨"prefix-hash", "ph", s!"PrefixHash differs from the hashes of the prefixes: {got}"⟩] else []) }
+  | ["cln", a] =>
+    -- NameFromBytes (decodes in place), Clone, then the source buffer is overwritten: the clone is still the name
+    match Name.ofText a with
+    | some x =>
+      let lastT := match x.getLast? with | some c => c.toText | none => "0:"
+      let want := a ++ " " ++ lastT
+      { st := s, expected := some want, cov := ["clone"],
+        spec := crashSpec "Clone" got ++
+          (if !isCrash got && got != want then
+            [⟨"clone-independent", "cln", s!"a clone of {a} (decoded from a buffer that was then reused) reads {got}"⟩] else []) }
+    | none => bad s
   | "tabr" :: kind :: toks =>
     -- a name-keyed table (trie: engine NameTrie; mem: object MemoryStore; pit: the forwarder's PIT tree) under
     -- insertions (+name), removals (-name) and lookups (?name): one observation character per operation
